@@ -26,7 +26,7 @@ claimed = {
 na = {
 }
 techn = "bounded symbolic execution of the real go/ssa (gosym) + SMT (z3), counterexamples replayed natively"
-thorough_quick = {"C01", "C02", "C04", "C07", "C08", "C10", "C13", "C16"}
+thorough_quick = {"C01", "C04", "C07", "C08", "C10", "C16"}
 note = "Trusted: go/ssa semantics as implemented by gosym (selftest + native replay), z3 verdicts, stub contracts listed in evidence. Bounds (text length, shape family, ranges) are stated in evidence.coverage.bounds; nothing is claimed outside them."
 checks = []
 for pid in sorted(claimed):
